@@ -16,8 +16,10 @@ def main(argv):
         if spec.get('module'):
             r = core.replay_call(spec['module'], spec['func'], eval(spec['args']))
         else:
-            mod = importlib.import_module('vt.props.' + spec['property'].lower())
-            r = mod.replay(spec)
+            ob = core.Ob(spec['obligation'], 'S', '', '', engine='python', module=spec['ob_module'], func=spec['ob_func'], env=spec.get('env') or {}, timeout=1800)
+            v = core.run_python_ob(ob, [])
+            r = {'ok': False if v.status == 'refuted' and (v.extra.get('replay') or {}).get('ok') is False else (True if v.status == 'confirmed' else None),
+                 'status': v.status, 'detail': v.detail, 'replay': v.extra.get('replay')}
         print(json.dumps(r, indent=1))
         return 1 if r.get('ok') is False else 0
     prop = argv[0].upper()
